@@ -205,6 +205,8 @@ def plan(tier, seed):
     pl = Plan("C16", "proof")
     pl.cases = status_cases() + propagate_cases()
     pl.canaries = [canary()]
+    from vfkit import lean as _leanc
+    pl.finite = list(getattr(pl, 'finite', None) or []) + [("A6/Lean re-check of the composition lemmas L-IND", _leanc.compose_check('L-IND'))]
 
     def sweep():
         return bounded.run_native("c16_propagation", {"max_tokens": 4 if tier == "quick" else 5,
@@ -220,7 +222,7 @@ def plan(tier, seed):
                  "implicit with default OR) / all of its children; negations are flipped afterwards.  Under the statement's "
                  "precondition (no negation strictly between a named element and the term it covers) val is the boolean "
                  "value of the sub-expression (paper)",
-                 "L-IND (paper) over the per-class contract of _propagate with the recursive call stubbed by the same "
+                 "L-IND (Lean: fold_ind; model link assumed) over the per-class contract of _propagate with the recursive call stubbed by the same "
                  "contract (statuses, two disjoint path sets below the child's path); L-A (Lean): any/all and set union over "
                  "an operand run behave like one element",
                  "_status_from_parent: recursion on the strict prefix stubbed by its contract (well-founded on path length)"]
